@@ -5,15 +5,157 @@ package main
 // where <expect> lists the node indices that must have recovered to ACTIVE at the end ("-" = none).
 
 import (
+	"errors"
 	"os"
+	"os/exec"
+	"os/signal"
+	"path/filepath"
 	"sort"
 	"strconv"
 	"strings"
+	"syscall"
 
 	"github.com/grafana/dskit/ring"
 )
 
-func init() { register("C09", runC09) }
+func init() {
+	register("C09", runC09)
+	register("C09.filechild", c09FileChild)
+}
+
+// c09FileChild runs in a CHILD process: `corr C09.filechild <path> <first> <n> <limit>` rewrites the tokens file
+// with n tokens first, first+7, ... under RLIMIT_FSIZE=limit (0 = unlimited) with SIGXFSZ ignored, so that a
+// write beyond the limit stops after `limit` bytes with EFBIG (disk full / quota). Prints the error class.
+func c09FileChild(e *env) {
+	if len(e.args) != 4 {
+		e.emit("usage")
+		return
+	}
+	first, _ := strconv.Atoi(e.args[1])
+	n, _ := strconv.Atoi(e.args[2])
+	limit, _ := strconv.Atoi(e.args[3])
+	if limit > 0 {
+		signal.Ignore(syscall.SIGXFSZ)
+		lim := syscall.Rlimit{Cur: uint64(limit), Max: uint64(limit)}
+		if err := syscall.Setrlimit(syscall.RLIMIT_FSIZE, &lim); err != nil {
+			e.emit("setrlimit-failed")
+			return
+		}
+	}
+	err := c09FileTokens(first, n).StoreToFile(e.args[0])
+	switch {
+	case err == nil:
+		e.emit("ok")
+	case errors.Is(err, syscall.EFBIG):
+		e.emit("efbig")
+	default:
+		e.emit("err")
+	}
+}
+
+func c09FileTokens(first, n int) ring.Tokens {
+	t := ring.Tokens{}
+	for i := 0; i < n; i++ {
+		t = append(t, uint32(first+7*i))
+	}
+	return t
+}
+
+// c09FileCases: an existing good tokens file is rewritten by a child process whose write succeeds or fails after a
+// partial write; the parent then looks at what is on disk.
+// Line: C09.file <case> <old tokens> <new tokens> <limit> <child error class> <file loads 0|1> <old|new|other> <tmp left 0|1>
+func c09FileCases(e *env, dir string) {
+	type fc struct{ oldN, newN, limit int }
+	cases := []fc{{3, 40, 100}, {3, 60, 100}, {20, 30, 100}, {3, 5, 100}, {3, 40, 0}, {0, 40, 100}, {3, 25, 64}, {12, 100, 256}, {3, 18, 100}, {3, 19, 100}}
+	for k, c := range cases {
+		path := filepath.Join(dir, "filecase-"+itoa(k)+".tokens")
+		os.Remove(path)
+		os.Remove(path + ".tmp")
+		old := c09FileTokens(5, c.oldN)
+		if err := old.StoreToFile(path); err != nil {
+			panic(err)
+		}
+		nw := c09FileTokens(100000, c.newN)
+		out, err := exec.Command(os.Args[0], "C09.filechild", path, "100000", itoa(c.newN), itoa(c.limit)).Output()
+		class := strings.TrimSpace(string(out))
+		if err != nil && class == "" {
+			class = "child-failed"
+		}
+		loads, which := "1", "other"
+		got, lerr := ring.LoadTokensFromFile(path)
+		if lerr != nil {
+			loads = "0"
+		} else if got.Equals(append(ring.Tokens{}, old...)) && len(got) == len(old) {
+			which = "old"
+		} else if got.Equals(append(ring.Tokens{}, nw...)) && len(got) == len(nw) {
+			which = "new"
+		}
+		tmp := "0"
+		if _, err := os.Stat(path + ".tmp"); err == nil {
+			tmp = "1"
+		}
+		e.emit("C09.file", "file/k"+itoa(k), u32s(old), u32s(nw), itoa(c.limit), class, loads, which, tmp)
+		os.Remove(path)
+		os.Remove(path + ".tmp")
+	}
+}
+
+// c09WipeObserve: the ring is lost (key deleted, or reset to an empty descriptor) while the subject is JOINING in its
+// observe period; the observe timer fires BEFORE the next heartbeat (or after it), then the loops go on to ACTIVE.
+func c09WipeObserve(seed uint64, caseNo int, dir string) (string, bool) {
+	r := newRng(seed, uint64(80000+caseNo))
+	w := newWorld(r)
+	defer w.close()
+	kind := []byte{'L', 'L', 'L', 'B'}[caseNo%4]
+	sub := lcfg{kind: kind, id: "i0", addr: "a0:1", zone: "z1", numTokens: 1 + r.intn(4), observe: true, hasFile: r.chance(1, 2), hbTimeout: 61,
+		readinessRing: r.chance(1, 2), registerState: ring.JOINING, unregister: true}
+	sc := c09Scen{name: "wipeobs", subject: sub}
+	files, init0, cfgs := c09Prepare(w, sc, r, dir, caseNo)
+	defer c09Cleanup(w)
+	step := func(ev, arg string) string { w.vnow += 2; return w.fire(0, ev, arg, "n") }
+	nd := w.nodes[0]
+	if kind == 'L' {
+		step("init", "s7")
+		step("join", "-")
+	} else {
+		step("init", "-")
+	}
+	if r.chance(1, 2) {
+		step("hb", "-")
+	}
+	mode := (caseNo / 4) % 4 // 0: delete, timer first; 1: empty desc, timer first; 2: delete, heartbeat first; 3: empty desc, heartbeat first
+	if mode%2 == 0 {
+		w.wipe()
+	} else {
+		w.setStore(ring.NewDesc())
+		w.steps = append(w.steps, strings.Join([]string{"E", "set", "-", "n", strconv.FormatInt(w.vnow, 10), "-", "x", "ok", "-", "-"}, "!"))
+	}
+	if mode >= 2 {
+		step("hb", "-")
+	}
+	done := false
+	for t := 0; t < 4 && !done; t++ {
+		if step("verify", "-") == "yes" {
+			if kind == 'L' {
+				step("cs", "A")
+			} else {
+				step("ontok", "-")
+				step("cs", "A")
+			}
+			done = true
+		} else {
+			step("hb", "-")
+		}
+	}
+	step("hb", "-")
+	if nd.lc != nil {
+		step("ready", "-")
+	}
+	if w.bad {
+		return "", false
+	}
+	return c09Line(w, "wipeobs/m"+itoa(mode)+"/k"+itoa(caseNo), cfgs, files, init0, "0"), true
+}
 
 type c09op struct {
 	node    int
@@ -472,4 +614,6 @@ func runC09(e *env) {
 	}
 	c08Parallel(e, nf, "c09f", c09FaultCase)
 	c08Parallel(e, 80*e.scale, "c09t", c09TargetedFault)
+	c08Parallel(e, 96*e.scale, "c09w", c09WipeObserve)
+	c09FileCases(e, dir)
 }
